@@ -9,6 +9,10 @@
 //   mp  multipart/form-data requests through handler.Server + transport.MultipartForm
 //   tr  raw / mutated bodies on every HTTP transport
 //   ws  websocket frames of every type and payload on both subprotocols
+//   wl  multi-step websocket sequences with client strings of every boundary length (wl.go)
+//   hs  request histories on one server configured like production (hs.go)
+//   rs  scripts of Read/Seek run by user code on the readers of an upload (rs.go)
+//   wc  server-initiated websocket closes while subscriptions are writing (wc.go)
 package main
 
 import (
@@ -395,7 +399,7 @@ func auMode(r *rng.R, n int) {
 func main() {
 	tier := flag.String("tier", "quick", "quick|thorough")
 	seed := flag.Uint64("seed", 1, "seed")
-	mode := flag.String("mode", "au,mp,tr,ws,wl,hs", "which modes")
+	mode := flag.String("mode", "au,mp,tr,ws,wl,hs,rs,wc", "which modes")
 	corpus := flag.String("corpus", "", "directory of directed cases (corpus/C10)")
 	flag.Parse()
 	defer out.Flush()
@@ -426,14 +430,51 @@ func main() {
 			mpMode(rr, 500*scale, sub("mp"))
 		case "tr":
 			trMode(rr, 60*scale, sub("tr"))
-		case "ws":
-			wsMode(rr, 12*scale)
-		case "wl":
+		case "ws", "wl", "wc":
+			// in a child process that announces every case on stderr before running it: a panic outside every
+			// recover (an operation goroutine of the websocket transport) costs that process only, and the case
+			// that was running is reported (row `xc`)
+			out.Flush()
+			cmd := exec.Command(os.Args[0], "-mode", m+"-child", "-tier", *tier, "-seed", fmt.Sprint(rr.Next()), "-corpus", *corpus)
+			var so, se bytes.Buffer
+			cmd.Stdout, cmd.Stderr = &so, &se
+			err := cmd.Run()
+			b := so.Bytes()
+			if i := bytes.LastIndexByte(b, '\n'); i >= 0 {
+				out.Write(b[:i+1])
+			}
+			if err != nil {
+				last, rest := "-", []string{}
+				for _, l := range strings.Split(se.String(), "\n") {
+					if strings.HasPrefix(l, "@case ") {
+						last = l[6:]
+						rest = rest[:0]
+					} else {
+						rest = append(rest, l)
+					}
+				}
+				t := strings.Join(rest, "\n")
+				if len(t) > 1500 {
+					t = t[:1500]
+				}
+				fmt.Fprintf(out, "xc\t%s\t%s\t%s\t%s\n", m, hx(last), hx(err.Error()), hx(t))
+			}
+		case "ws-child":
+			wsMode(r, 12*scale)
+		case "wl-child":
 			cf := ""
 			if *corpus != "" {
 				cf = *corpus + "/wl.txt"
 			}
-			wlMode(rr, 60*scale, cf)
+			wlMode(r, 60*scale, cf)
+		case "wc-child":
+			wcMode(r, 40*scale)
+		case "rs":
+			cf := ""
+			if *corpus != "" {
+				cf = *corpus + "/rs.txt"
+			}
+			rsMode(rr, 400*scale, sub("rs"), cf)
 		case "hs": // in a child process: a panic outside every recover must not take the other modes' rows with it
 			cf := ""
 			if *corpus != "" {
